@@ -672,7 +672,7 @@ func (o *Oracle) matchCall(fn string, args []engine.Value, got engine.Value, T t
 					continue
 				}
 				for i, a := range args {
-					cond = engine.And(cond, o.Identical(a, c.SourceArgs[i]))
+					cond = engine.And(cond, o.argIs(a, c.SourceArgs[i]))
 				}
 			}
 			res := c.Result
@@ -684,6 +684,17 @@ func (o *Oracle) matchCall(fn string, args []engine.Value, got engine.Value, T t
 	}
 	note := fmt.Sprintf("value is not the result of a call to %s with the source at this position (%d calls logged)", fn, n)
 	o.leaf(path, o.R.Name(any), note)
+}
+
+// argIs: the logged argument of a custom function is the expected source value - or a pointer to it (a function that
+// takes *S is handed the pointer the method holds, the reference mapping walks the struct behind it)
+func (o *Oracle) argIs(want, logged engine.Value) *engine.Term {
+	if lp, ok := logged.(engine.Pointer); ok && lp.Slot != nil {
+		if _, wantPtr := want.(engine.Pointer); !wantPtr {
+			return o.Identical(want, *lp.Slot)
+		}
+	}
+	return o.Identical(want, logged)
 }
 
 func (o *Oracle) resultIs(res engine.Value, RT types.Type, got engine.Value, T types.Type) *engine.Term {
